@@ -52,7 +52,7 @@ CLAIMED = {
          TB + "std contracts: BufReader never buffers beyond its capacity, read_until consumes through the delimiter and retries Interrupted, write_all loops over short writes.", "DESIGN.md 4 C15"),
  "C16": ("proof", "A2 effect-order rules + A1 classification table on SerialSignBus::process_message",
          "Every path of <SerialSignBus<P> as SignBus>::process_message is enumerated (both logging extremes) with Frame::write/read and the From impls as protocol-level units; rules: first port effect is the write of Frame::from(message); a write error returns with no further port effect; exactly one read iff the message kind is Hello/QueryState/RequestOperation; results are never dropped; Ok(Some(Message::from(frame))) / Ok(None).",
-         TB + "Frame contents are C01/C04's concern.", "DESIGN.md 4 C16"),
+         TB + "Frame contents (C01, C04, C05) are decided by running those rule sets as part of this check.", "DESIGN.md 4 C16"),
  "C17": ("other", "A2 bridge-shape rules on Odk::process_message + cross-table agreement (bridge clause only; rest by composition)",
          "Decides two clauses, not the headline: (a) the ODK bridge reads one frame first, reports a decode error as Communication before any bus call, forwards Message::from(frame) to the bus, maps a bus error to OdkError::Bus and writes Frame::from(m) back iff the bus returned Some(m); (b) the serial bus's reply classification, the virtual sign's reply table and the controller's expectations agree on which kinds are answered. End-to-end equality of sign state is the composition of C01, C04, C05, C15, C16 with (a),(b) (lemma L5), not re-derived per run.",
          TB + "Lemma L5 (DESIGN.md section 6).", "DESIGN.md 4 C17"),
@@ -69,6 +69,7 @@ CLAIMED = {
 REASONS = {}
 # clauses of a property that are another property's subject are decided by running that rule set as part of this check
 INCLUDES = {
+    "C01": "The stream form of the two encodings (Frame::write / Frame::read) is decided here too, by running C15's rule set as C01.stream(..).",
     "C02": "Also runs C15's rules on Frame::read (the second decoding entry point hands the unmodified line to from_bytes), as C02.read(..).",
     "C05": "The frame<->bytes leg is decided by running C01's codec rule set as part of this check, as C05.wire(..).",
     "C08": "The data plane is decided by running the component rule sets as part of this check: C09.O2-O4 (chunking), C13.O2 (reassembly), C07.O1/O3 (page length), as C08.data(..); that the bus hands every message to the sign and returns its reply (C14.O4) and that no sign handler panics (C12) are legs of the composition too, as C08.bus(..) / C08.total(..). The sign-type block (C19 tables) is a leg too, as C08.type(..). Controller and sign are extracted at both extremes of the log level.",
